@@ -220,3 +220,93 @@ def run_literal_parity(prog, tier, repo):
             res.violation(f'escape:{b.name}:{name}', b.loc(line), f'the printer applies {name}{pat} to string-literal text but the '
                           f'parser has no inverse: formatting changes the literal')
     return [res]
+
+
+def run_id_comment_pair(prog, tier, repo):
+    """ID-COMMENT-PAIR (C09): where the printer prints the name of an identifier without its comments, the parser
+    must provably never attach comments to that identifier slot."""
+    res = RuleResult('ID-COMMENT-PAIR', 'C09: an identifier whose comments the printer does not print never carries comments')
+    ID = _adt(prog, 'samlang_ast::source::Id')
+    if ID is None:
+        res.cannot_decide('source::Id')
+        return [res]
+    fidx = {f.name: i for i, f in enumerate(ID.variants[0].fields)}
+    if 'name' not in fidx or 'associated_comments' not in fidx:
+        res.cannot_decide('Id.name / Id.associated_comments')
+        return [res]
+    from ..core import places_read
+    printer = [b for b in prog.bodies.values() if b.crate == 'samlang_printer' and '::source_printer::' in b.name]
+    # per function: Id-typed parent slots whose name is read / whose comments are read
+    unprinted = {}   # parent slot (adt, variant, field) -> printer function
+    n_pairs = 0
+    for b in printer:
+        name_reads, comment_reads = {}, set()
+        for pl, bi, line in places_read(b):
+            fs = [e for e in pl.proj if e[0] == 'f']
+            for j, e in enumerate(fs):
+                if e[1] == ID.id and j > 0:
+                    parent = (fs[j - 1][1], fs[j - 1][2], fs[j - 1][3])
+                    if e[4] == 'name':
+                        name_reads.setdefault(parent, line)
+                    elif e[4] == 'associated_comments':
+                        comment_reads.add(parent)
+        # names bound through a local reference: `_x = &(.. as LocalId).1` then `(*_x).name`
+        for pl, bi, line in places_read(b):
+            fs = [e for e in pl.proj if e[0] == 'f']
+            if fs and fs[0][1] == ID.id and len(fs) == 1:
+                from ..cfg import def_sites
+                r, p = root_local(b, pl.local)
+                paths = [p]
+                if not [e for e in p if e[0] == 'f']:
+                    # or-pattern bindings: several `_x = &(.. as V).k` definitions of the same local
+                    for dbb, si, rv in def_sites(b).get(r, []):
+                        if si != 'term' and rv[0] == 'ref':
+                            paths.append(tuple(e for e in rv[2].proj if e[0] in ('f', 't', 'v')))
+                for pp in paths:
+                    pfs = [e for e in pp if e[0] == 'f']
+                    if pfs:
+                        parent = (pfs[-1][1], pfs[-1][2], pfs[-1][3])
+                        if fs[0][4] == 'name':
+                            name_reads.setdefault(parent, line)
+                        elif fs[0][4] == 'associated_comments':
+                            comment_reads.add(parent)
+        for parent, line in name_reads.items():
+            n_pairs += 1
+            if parent not in comment_reads:
+                unprinted.setdefault(parent, (b, line))
+    res.floor('identifier print sites', n_pairs, 5)
+    parser = [b for b in prog.bodies.values() if b.crate == 'samlang_parser']
+    for parent, (pb, pline) in sorted(unprinted.items()):
+        adt = prog.adts.get(parent[0])
+        if adt is None:
+            continue
+        slot_name = f'{adt.name}::{adt.variants[parent[1]].name}.{adt.variants[parent[1]].fields[parent[2]].name}'
+        # is this slot's comment reference read by *any* printer function? then it is printed elsewhere
+        n_prod = 0
+        for b in parser:
+            for bi, bl in enumerate(b.blocks):
+                if bl.cleanup:
+                    continue
+                for st in bl.stmts:
+                    if not (st[0] == 'a' and st[2][0] == 'agg' and st[2][1][0] == 'adt' and st[2][1][1] == parent[0]
+                            and st[2][1][2] == parent[1]):
+                        continue
+                    n_prod += 1
+                    idop = st[2][2][parent[2]]
+                    key = f'id-comments:{b.name}:{slot_name}'
+                    empty = False
+                    if idop[0] in ('c', 'm'):
+                        r, p = operand_root(b, idop)
+                        sd = single_def(b, r) if not p else None
+                        if sd and sd[1] != 'term' and sd[2][0] == 'agg' and sd[2][1][0] == 'adt' and sd[2][1][1] == ID.id:
+                            c = sd[2][2][fidx['associated_comments']]
+                            if c[0] == 'k' and 'NO_COMMENT_REFERENCE' in c[1].v:
+                                empty = True
+                    if empty:
+                        res.ok(key, b.loc(st[3]), 'identifier built with the constant empty comment reference')
+                    else:
+                        res.violation(key, b.loc(st[3]), f'{b.name} builds {slot_name} from an identifier that may carry comments '
+                                      f'(not the constant NO_COMMENT_REFERENCE), but {pb.name} prints only its name: comments '
+                                      f'attached to that identifier are lost by formatting')
+        res.analysed.setdefault('unprinted_slots', []).append(f'{slot_name} ({n_prod} parser constructions)')
+    return [res]
